@@ -86,6 +86,13 @@ func (w *sessionResponseWriter) WriteHeader(statusCode int) {
 		// Multiple calls ot WriteHeader are no-ops
 		return
 	}
+	if statusCode >= 100 && statusCode < 200 && statusCode != http.StatusSwitchingProtocols {
+		// An informational response (e.g. 103 Early Hints passed on by
+		// httputil.ReverseProxy) is not the final one: relay it and keep
+		// waiting for the final status and its cookies.
+		w.wrapped.WriteHeader(statusCode)
+		return
+	}
 	w.wroteHeader = true
 	header := w.Header()
 	cookiesToAdd := (&http.Response{Header: header}).Cookies()
